@@ -362,6 +362,8 @@ func asComplete(loc Location) Location {
 			v[i] = asComplete(u)
 		}
 		return v
+	case Complemented:
+		return Complemented{asComplete(v.Location)}
 	default:
 		return v
 	}
